@@ -22,7 +22,7 @@ def replay_fault(tag, rec):
     cl = solverplay.Clauses(rec)
     o = rec['o']
     plan = {i + 1: OUTCOME.get(p['o'], p['o']) for i, p in enumerate(rec['plan']) if p['o'] != 'ok'}
-    durs = {i + 1: float(p['d']) for i, p in enumerate(rec['plan']) if p['d']}
+    durs = {i + 1: p['d'] / 1e6 for i, p in enumerate(rec['plan']) if p['d']}      # microseconds -> seconds
     cl.key = 'limit=%s plan=%s %s' % (rec['limit'], ' '.join('%s/%s' % (p['o'], p['d']) for p in rec['plan']), cl.key)
     exp = rec['presented']
     path = impl.write_text(o['text'])
@@ -33,7 +33,7 @@ def replay_fault(tag, rec):
         for policy in ('zeros', 'stale', 'ones'):
             clock = observe.VirtualClock()
             r = solverplay.run_once(argv, seed=7, getters=('results', 'short', 'long'), plan=plan, durations=durs,
-                                    clock=clock, values_on_fault=policy, timeLimit=rec['limit'] or None, keep_sets=False)
+                                    clock=clock, values_on_fault=policy, timeLimit=(rec['limit'] / 1e6) if rec['limit'] else None, keep_sets=False)
             st, S = r['construct']
             if st != 'ok':
                 cl.add('C14', 'construct', False, '%s %s' % (st, S))
@@ -78,10 +78,10 @@ def runs_for(tier):
     C = fm.C
     base = dict(NS=2, NP=2, NL=1, MaxLen=2, TieMode='none', AllowEmpty=False, PQ={(0, 1)}, LQ={(0, 2, 2)}, Sided={'one'}, PCs={False})
     f1 = fm.fam(CritLists=[(C('maxsize'), C('gen'), C('mincost')), (C('gre'),), (C('gen', 2), C('lsb'))], **base)
-    f1.update(Limits={0, 4}, FaultKinds=KINDS, MaxFaults=2)
+    f1.update(Limits={0, 4000000}, FaultKinds=KINDS, MaxFaults=2)
     f2 = fm.fam(CritLists=[(), (C('maxsize'),), (C('minsize'), C('gre'), C('gen'), C('mincostlsb'), C('lmb'))],
                 **dict(base, PQ={(0, 1), (1, 1)}, MaxLen=2, TieMode='all'))
-    f2.update(Limits={0, 4}, FaultKinds=KINDS, MaxFaults=2)
+    f2.update(Limits={0, 4000000}, FaultKinds=KINDS, MaxFaults=2)
     runs = [dict(label='2 students x {maxsize,gen,mincost | gre | gen 2,lsb}: all single and double faults', consts=f1, sim=None if not q else 30000),
             dict(label='ties/lower quotas x {none | maxsize | 5 criteria, 7 solves}', consts=f2, sim=20000 if q else 200000)]
     return runs
